@@ -384,6 +384,7 @@ func mainMerkle(seed uint64, maxN, full, rounds int, out, replay string) {
 			sum.Violations = append(sum.Violations, map[string]any{"what": runM(sc).violations[0], "case": sc})
 		}
 	}
+	sum.Extra["verify_transaction_calls"] = sum.Histograms["verdict"]
 	w.Close()
 	sum.Write(out)
 }
